@@ -939,6 +939,39 @@ fn stdlib_types() -> usize {
     bad
 }
 
+/// Independent membership predicate: does the value belong to the kind?  Written against the meaning of
+/// a kind (scalar flags; per known field/index its kind, `undefined` admitted where absent; the unknown
+/// kind for everything else), not against `is_superset`.
+fn member(v: &Value, k: &vrl::value::Kind) -> bool {
+    match v {
+        Value::Bytes(_) => k.contains_bytes(),
+        Value::Integer(_) => k.contains_integer(),
+        Value::Float(_) => k.contains_float(),
+        Value::Boolean(_) => k.contains_boolean(),
+        Value::Timestamp(_) => k.contains_timestamp(),
+        Value::Regex(_) => k.contains_regex(),
+        Value::Null => k.contains_null(),
+        Value::Object(o) => match k.as_object() {
+            None => false,
+            Some(c) => {
+                o.iter().all(|(key, val)| match c.known().get(&vrl::value::kind::Field::from(key.as_str())) {
+                    Some(fk) => member(val, fk),
+                    None => member(val, &c.unknown_kind()),
+                }) && c.known().iter().all(|(key, fk)| o.contains_key(key.as_str()) || fk.contains_undefined())
+            }
+        },
+        Value::Array(a) => match k.as_array() {
+            None => false,
+            Some(c) => {
+                a.iter().enumerate().all(|(i, val)| match c.known().get(&vrl::value::kind::Index::from(i)) {
+                    Some(ik) => member(val, ik),
+                    None => member(val, &c.unknown_kind()),
+                }) && c.known().iter().all(|(i, ik)| i.to_usize() < a.len() || ik.contains_undefined())
+            }
+        },
+    }
+}
+
 /// C19 witness / stand-in: union and merge at the level of collection kinds.  For small object / array
 /// kinds A, B and values v: v in A or v in B  =>  v in A.union(B), and A.union(B) is a superset of both.
 fn kind_union() -> usize {
@@ -964,25 +997,34 @@ fn kind_union() -> usize {
         ("string|null", Kind::bytes().or_null()),
         ("{a: integer}|null", Kind::object(f(vec![("a", Kind::integer())])).or_null()),
         ("[integer]|{}", arr(vec![Kind::integer()]).or_object(Collection::empty())),
+        ("{*: timestamp}", Kind::object(Collection::from_unknown(Kind::timestamp()))),
+        ("{*: json}", Kind::object(Collection::json())),
+        ("{*: integer}", Kind::object(Collection::from_unknown(Kind::integer()))),
+        ("[*: timestamp]", Kind::array(Collection::from_unknown(Kind::timestamp()))),
+        ("[*: json]", Kind::array(Collection::json())),
+        ("{a: integer, *: string}", Kind::object(Collection::from_parts(f(vec![("a", Kind::integer())]), Kind::bytes()))),
     ];
     let ev = |json: &str| -> Value { serde_json::from_str::<serde_json::Value>(json).map(Value::from).unwrap() };
     let values: Vec<Value> = ["{}", "{\"a\": 1}", "{\"a\": \"s\"}", "{\"a\": 1, \"b\": \"s\"}", "{\"b\": true}", "{\"o\": {}}", "{\"o\": {\"a\": \"x\"}}",
-                              "[]", "[1]", "[1, \"s\"]", "[\"s\"]", "1", "\"s\"", "null"].iter().map(|j| ev(j)).collect();
+                              "[]", "[1]", "[1, \"s\"]", "[\"s\"]", "1", "\"s\"", "null", "{\"x\": 5}", "{\"a\": 1, \"z\": \"s\"}"].iter().map(|j| ev(j)).collect();
+    let ts = Value::Timestamp(Default::default());
+    let mut values = values;
+    values.push(Value::Object([("x".into(), ts.clone())].into_iter().collect()));
+    values.push(Value::Array(vec![ts.clone()]));
+    values.push(Value::Object([("x".into(), Value::Array(vec![Value::Null]))].into_iter().collect()));
     let mut bad = 0;
     for (na, a) in &kinds {
         for (nb, b) in &kinds {
             let u = a.union(b.clone());
-            for (side, k) in [("left", a), ("right", b)] {
-                if u.is_superset(k).is_err() {
-                    bad += 1;
-                    if bad <= 12 { fail("kind_union", &format!("({na}).union({nb})"), &format!("a superset of its {side} operand"), &u.to_string()); }
-                }
-            }
+            let sup = a.is_superset(b).is_ok();
             for v in &values {
-                let kv = Kind::from(v);
-                if (a.is_superset(&kv).is_ok() || b.is_superset(&kv).is_ok()) && u.is_superset(&kv).is_err() {
+                if (member(v, a) || member(v, b)) && !member(v, &u) {
                     bad += 1;
-                    if bad <= 12 { fail("kind_union", &format!("({na}).union({nb}) and the value {v}"), "the value of one operand's kind belongs to the union", &format!("union = {u}")); }
+                    if bad <= 12 { fail("kind_union", &format!("({na}).union({nb}) and the value {v}"), "a value of one operand's kind belongs to the union", &format!("union = {u} {u:?}")); }
+                }
+                if sup && member(v, b) && !member(v, a) {
+                    bad += 1;
+                    if bad <= 12 { fail("kind_union", &format!("({na}).is_superset({nb}) and the value {v}"), "a kind accepted as a superset admits every value of the other", "is_superset = Ok but the value is outside"); }
                 }
             }
         }
